@@ -521,6 +521,18 @@ class Hstack(Linop):
         return Vstack([op.H for op in self.linops], axis=self.axis)
 
 
+def _alloc_stack_output(xp, output, oshape, dtype):
+    """Allocate (or promote) the stacked output so that no block is cast down."""
+    if output is None:
+        return xp.empty(oshape, dtype=dtype)
+
+    dtype = xp.result_type(output.dtype, dtype)
+    if dtype != output.dtype:
+        return output.astype(dtype)
+
+    return output
+
+
 def _vstack_params(shapes, axis):
     if axis is None:
         return _vstack_params([[util.prod(shape)] for shape in shapes], 0)
@@ -582,7 +594,7 @@ class Vstack(Linop):
         device = backend.get_device(input)
         xp = device.xp
         with device:
-            output = xp.empty(self.oshape, dtype=input.dtype)
+            output = None
             for n, linop in enumerate(self.linops):
                 if n == 0:
                     start = 0
@@ -594,8 +606,12 @@ class Vstack(Linop):
                 else:
                     end = self.indices[n]
 
+                output_n = linop(input)
+                output = _alloc_stack_output(
+                    xp, output, self.oshape, output_n.dtype
+                )
                 if self.axis is None:
-                    output[start:end] = linop(input).ravel()
+                    output[start:end] = output_n.ravel()
                 else:
                     ndim = len(linop.oshape)
                     axis = self.axis % ndim
@@ -604,7 +620,7 @@ class Vstack(Linop):
                         + [slice(start, end)]
                         + [slice(None)] * (ndim - axis - 1)
                     )
-                    output[slc] = linop(input)
+                    output[slc] = output_n
 
         return output
 
@@ -648,7 +664,7 @@ class Diag(Linop):
         device = backend.get_device(input)
         xp = device.xp
         with device:
-            output = xp.empty(self.oshape, dtype=input.dtype)
+            output = None
             for n, linop in enumerate(self.linops):
                 if n == 0:
                     istart = 0
@@ -677,6 +693,9 @@ class Diag(Linop):
 
                     output_n = linop(input[islc])
 
+                output = _alloc_stack_output(
+                    xp, output, self.oshape, output_n.dtype
+                )
                 if self.oaxis is None:
                     output[ostart:oend] = output_n.ravel()
                 else:
